@@ -177,7 +177,15 @@ def r9_123(ctx):
                     k_eff, "/".join(sorted(tf)), s_eff, dflt, K_MAX, S_MIN, MTG_DEFAULT)
             ctx.ob("calculate_time_slice:%s:usable-clock:form" % colour, ok, b.where((blocks[-1], 0)), why)
         elif usable is False and inc_pos is False:
-            ctx.ob("calculate_time_slice:%s:no-clock-no-increment:zero" % colour, res == ("const", 0), b.where((blocks[-1], 0)),
+            # the value, not its spelling: `0`, `NO_TIME`, `(0.0).round() as u128` ... evaluate to 0
+            is_zero = res == ("const", 0)
+            if not is_zero:
+                from wa.interp import eval_expr, Unknown
+                try:
+                    is_zero = eval_expr(res, {}) == 0
+                except (Unknown, TypeError, ValueError):
+                    is_zero = False
+            ctx.ob("calculate_time_slice:%s:no-clock-no-increment:zero" % colour, is_zero, b.where((blocks[-1], 0)),
                    "with no usable clock and no increment the slice is `%s`; must be 0" % show_expr(res, b)[:80])
         elif usable is False and inc_pos is True:
             ctx.ob("calculate_time_slice:%s:increment-only" % colour, True, b.where((blocks[-1], 0)),
@@ -321,36 +329,42 @@ def r9_6(ctx):
     sc, ex = ucishape.token_scan(b)
     tests = ucishape.keyword_tests(sc)
     fields = f.struct_fields(GT)
-    got = {}
     gts = [l for l in range(len(b.locals)) if b.local_ty(l) == GT]
-    for loc, st in b.iter_stmts():
-        if st["k"] != "assign":
-            continue
-        p = st["place"]
-        if p["local"] in gts and p["proj"] and p["proj"][0]["k"] == "field":
-            fld = p["proj"][0]["name"]
-            names = []
-            name_offs = set()
-            for d, vals, excl, s, tg in dominating_facts(b, ex, loc[0]):
-                truth = (vals is None and excl == [0]) or vals == [1]
-                d0 = strip_refs(d)
-                if truth and d0[0] == "bin" and d0[1] == "Eq":
-                    for k in (strip_refs(d0[2]), strip_refs(d0[3])):
-                        if k[0] == "str":
-                            names.append(k[1])
-                            if k[1] in tests and tests[k[1]][0] == s:
-                                name_offs |= set(tests[k[1]][3])
-            # the stored value is parsed from the token after the name: token positions are those of
-            # the scan (index, iterator, peek or window), not of one spelling of `commands[i + 1]`
-            e = ex.rvalue(st["rv"], loc)
-            toks = [sc.token_offsets(a) for a in ucishape.parsed_tokens(f, e)]
+    # Decided per hypothesis "the current token is <name>" / "is no known name" (the body is specialised
+    # under the name tests, so a field pointer or a value selected by the match collapses to the one
+    # feasible definition): which GameTime fields does one iteration write, and from which token?
+    # Writes are followed through `&mut` pointers to a field (`*field = ..` with `field` chosen by name).
+    from wa.cond import specialise
+    from .session import resolve_place
+
+    def writes_under(which):
+        hyp = {d: ("eq", nm == which) for nm, (s_, tt, ft, offs, d) in tests.items()}
+        b2, ex2, dead = specialise(b, hyp, keep=sc.counters)
+        lp2 = b2.natural_loop(sc.h) if sc.h in b2.reachable else set()
+        sc2 = ucishape.Scan(b2, ex2, sc.src, sc.h, lp2, sc.counters)
+        name_offs = set(tests[which][3]) if which is not None else set()
+        out = []
+        for loc, st in b2.iter_stmts():
+            if st["k"] != "assign" or loc[0] not in lp2 or loc[0] not in b2.reachable:
+                continue
+            rp = resolve_place(b2, st["place"])
+            if rp is None or rp[0] not in gts or not rp[1]:
+                continue
+            e = ex2.rvalue(st["rv"], loc)
+            toks = [sc2.token_offsets(a) for a in ucishape.parsed_tokens(f, e)]
             parsed = len(toks) == 1 and toks[0] is not None and None not in toks[0] and None not in name_offs and bool(name_offs) and toks[0] == {o + 1 for o in name_offs}
-            got.setdefault(fld, []).append((names, parsed, loc))
+            out.append((rp[1][0], parsed, loc))
+        return out
+    per = {w: writes_under(w) for w in list(tests) + [None]}
     for fld in ("wtime", "btime", "winc", "binc", "movestogo"):
-        lst = got.get(fld, [])
-        ok = len(lst) == 1 and lst[0][0] == [fld] and lst[0][1]
-        ctx.ob("parse_go_command:%s" % fld, ok, b.where(lst[0][2]) if lst else b.file,
-               "GameTime.%s is assigned under the token(s) %s from the parsed next token: %s" % (fld, [x[0] for x in lst], [x[1] for x in lst]))
+        own = per.get(fld, [])
+        elsewhere = sorted({str(w) for w, ws in per.items() if w != fld and any(x[0] == fld for x in ws)})
+        ok = fld in tests and [x[0] for x in own] == [fld] and own[0][1] and not elsewhere
+        ctx.ob("parse_go_command:%s" % fld, ok, b.where(own[0][2]) if own else b.file,
+               "under the token `%s` one iteration writes %s (must be GameTime.%s alone), from the parsed next token: %s; the field is also written under: %s" % (
+                   fld, [x[0] for x in own], fld, [x[1] for x in own], elsewhere))
+    stray = sorted({x[0] for x in per.get(None, [])})
+    ctx.ob("parse_go_command:unknown-token-writes-nothing", not stray, b.file, "an unknown token changes no clock field (%s)" % stray, nontrivial=False)
     # initial values: the struct literal is all zero / None
     init_ok = False
     for loc, st in b.iter_stmts():
